@@ -346,11 +346,36 @@ func c34Index(entries [][2]int64, count int32, interval int32) []byte {
 	return out
 }
 
+// c34RuntFrame is a batch frame (8-byte base offset, 4-byte batch length, content) whose batch
+// length L is shorter than a record-batch header needs (frame 12+L < 61 for L <= 48) or just
+// reaches it (L = 49..60): content is noise, zeros, or the start of a well-formed batch header.
+// have < L gives a frame whose declared length runs past the bytes present.
+func c34RuntFrame(rng *rand.Rand, base int64, L, have int) []byte {
+	f := make([]byte, 12+have)
+	binary.BigEndian.PutUint64(f, uint64(base))
+	binary.BigEndian.PutUint32(f[8:], uint32(L))
+	switch rng.Intn(3) {
+	case 0:
+		rng.Read(f[12:])
+	case 1: // zeros
+	default:
+		w, _ := c34Valid(rng, 1).encode()
+		copy(f[12:], w[12:])
+	}
+	return f
+}
+
+// c34RawSegment is c34Wrap without the footer: header + body.
+func c34RawSegment(base int64, count int32, body []byte) []byte {
+	s := c34Wrap(base, count, body, 0)
+	return s[:len(s)-16]
+}
+
 // TestVerifC34Gen is stage 1: it writes the two input containers ($VERIF_SCRATCH/c34corpus/
 // segments, indexes) that the crashbox legs of every module run against.
 func TestVerifC34Gen(t *testing.T) {
 	r := verifkit.Start(t, "C34", "gen")
-	defer r.Finish("stage 1 (corpus): (b) hostile record batches - valid batches with 1-2 structure-aware mutations (record count, batch length, record length, key/value/header lengths and header count set to 0/-1/off-by-one/64Ki..1Mi/just above 64 MiB/2^31-1/2^31/2^32/2^35/2^63-1/-2^63, over-long, unterminated and missing varints, compression bits, extreme timestamps, trailing bytes, bad CRC) and raw noise >= 61 bytes - are sent through the real handler.handleProduce (acks -1/0) and every segment+index object the broker then wrote is collected: exactly what a client can plant; (a) byte strings: the same hostile batches wrapped by the harness in spec-conformant and mutated segment header/footer, every-byte truncations of small valid segments (file cut, and body cut with footer re-attached), bit flips, pure noise with and without magic/framing; index files: broker-written, count field set to hostile values, truncations, noise. This leg only generates; the crashbox legs judge. non-trivial = input reaches per-batch parsing (passes size/magic/framing)",
+	defer r.Finish("stage 1 (corpus): (b) hostile record batches - valid batches with 1-2 structure-aware mutations (record count, batch length, record length, key/value/header lengths and header count set to 0/-1/off-by-one/64Ki..1Mi/just above 64 MiB/2^31-1/2^31/2^32/2^35/2^63-1/-2^63, over-long, unterminated and missing varints, compression bits, extreme timestamps, trailing bytes, bad CRC) and raw noise >= 61 bytes - are sent through the real handler.handleProduce (acks -1/0) and every segment+index object the broker then wrote is collected: exactly what a client can plant; (a) byte strings: the same hostile batches wrapped by the harness in spec-conformant and mutated segment header/footer, every-byte truncations of small valid segments (file cut, and body cut with footer re-attached), bit flips, pure noise with and without magic/framing; runt / minimal frames (batch length 1..60 in turn, also lengths running past the bytes present and bare / partial frame headers) as the last thing in the segment: exactly at the end of the body before a valid or a broken footer, at the end of a footer-less file, running into the footer, followed by a little padding, two in a row, after 0..2 well-formed batches, and - through the broker - as the bytes a client appends to an accepted batch whose own length field stops short of them; index files: broker-written, count field set to hostile values, truncations, noise, k whole entries + a 1..11-byte partial entry with count k-1/k/k+1, header cut at every byte. This leg only generates; the crashbox legs judge. non-trivial = input reaches per-batch parsing (passes size/magic/framing)",
 		"the broker's whole validation of a produced batch is len >= 61 (NewRecordBatchFromBytes); measured here: the share of hostile batches handleProduce acknowledged")
 	dir := verifc34.CorpusDir()
 	ctx := context.Background()
@@ -523,6 +548,56 @@ func TestVerifC34Gen(t *testing.T) {
 		}
 		collect(topic, "broker/"+strings.Join(labels, "+"))
 	}
+	// (b) a client batch the broker accepts (>= 61 bytes) whose own batch-length field stops short of
+	// the bytes sent: what follows is read by every segment scanner as further frames, so the client
+	// chooses them: a runt / minimal frame (batch length 1..60, or a length running past the end, or a
+	// bare/partial frame header) that ends exactly where the broker-written segment body ends
+	nTail := r.N(120, 1200)
+	for i := 0; i < nTail; i++ {
+		rng := r.Rand(600000 + i)
+		topic := fmt.Sprintf("c34t-%d", i)
+		nb := 1 + rng.Intn(2)
+		var label string
+		for k := 0; k < nb; k++ {
+			b := c34Valid(rng, 1+rng.Intn(4))
+			if k == nb-1 {
+				head, _ := b.encode()
+				bl := int32(len(head) - 12)
+				b.batchLen = &bl
+				L := 1 + i%60
+				switch m := rng.Intn(8); {
+				case m < 5:
+					b.tail = c34RuntFrame(rng, int64(b.count), L, L)
+					label = fmt.Sprintf("runt_tail(batch_length=%d)", L)
+				case m < 6:
+					have := rng.Intn(L)
+					b.tail = c34RuntFrame(rng, int64(b.count), L, have)
+					label = fmt.Sprintf("runt_tail(batch_length=%d,present=%d)", L, have)
+				case m < 7:
+					b.tail = c34RuntFrame(rng, int64(b.count), L, 0)[:1+rng.Intn(12)]
+					label = fmt.Sprintf("runt_tail(frame_header_bytes=%d)", len(b.tail))
+				default: // two runts in a row
+					L2 := 1 + rng.Intn(14)
+					b.tail = append(c34RuntFrame(rng, int64(b.count), L, L), c34RuntFrame(rng, int64(b.count)+1, L2, L2)...)
+					label = fmt.Sprintf("runt_tail(batch_length=%d)+runt", L)
+				}
+			}
+			wire, _ := b.encode()
+			acks := int16(-1)
+			if k < nb-1 {
+				acks = 0
+			}
+			r.Count("hostile_batches_sent", 1)
+			if produce(topic, acks, wire) {
+				accepted++
+				r.Count("hostile_batches_acknowledged", 1)
+				if k == nb-1 {
+					r.Count("runt_tail_batches_acknowledged", 1)
+				}
+			}
+		}
+		collect(topic, "broker/"+label)
+	}
 	// (a) harness-wrapped byte strings
 	nMut := r.N(500, 5000)
 	for i := 0; i < nMut; i++ {
@@ -617,6 +692,86 @@ func TestVerifC34Gen(t *testing.T) {
 			addSeg("noise/bitflip", c34Wrap(0, bb.count, w, int64(bb.count)-1), c34Index([][2]int64{{0, 32}}, 1, 100))
 		}
 	}
+	// runt / minimal frames (batch length 1..60, every value in turn) as the LAST thing a scanner meets:
+	// at the very end of the body (footer intact, i.e. right before the footer), at the end of the file
+	// (no footer, or the frame running into / through the footer), followed only by a few bytes of padding,
+	// and as the only frame of a minimal segment; after 0..2 well-formed batches whose timestamps lie
+	// below / around / above the cut-offs the restore legs use
+	nRunt := r.N(480, 4800)
+	for i := 0; i < nRunt; i++ {
+		rng := r.Rand(700000 + i)
+		L := 1 + i%60
+		var body []byte
+		total := int32(0)
+		np := rng.Intn(3)
+		for k := 0; k < np; k++ {
+			b := c34Valid(rng, 1+rng.Intn(4))
+			w, _ := b.encode()
+			body = append(body, w...)
+			total += b.count
+		}
+		idx := c34Index([][2]int64{{0, 32}}, 1, 100)
+		pre := fmt.Sprintf("runt/after_%d_batches,batch_length=%d,", np, L)
+		last := int64(total) - 1
+		switch pl := (i / 60) % 8; pl {
+		case 0: // exactly at the end of the body, valid footer behind it
+			addSeg(pre+"body_end", c34Wrap(0, total, append(body, c34RuntFrame(rng, int64(total), L, L)...), last), idx)
+		case 1: // the same with a footer of noise / zeros (CRC and magic wrong)
+			seg := c34Wrap(0, total, append(body, c34RuntFrame(rng, int64(total), L, L)...), last)
+			if rng.Intn(2) == 0 {
+				rng.Read(seg[len(seg)-16:])
+			} else {
+				copy(seg[len(seg)-16:], make([]byte, 16))
+			}
+			addSeg(pre+"body_end_bad_footer", seg, idx)
+		case 2: // at the end of the file: no footer at all (scanners take the last 16 bytes for it)
+			addSeg(pre+"file_end_no_footer", append(c34RawSegment(0, total, body), c34RuntFrame(rng, int64(total), L, L)...), idx)
+		case 3: // declared length runs 1..16 bytes into the footer, or exactly to the end of the file
+			over := 1 + rng.Intn(16)
+			have := L - over
+			if have < 0 {
+				have = 0
+			}
+			addSeg(fmt.Sprintf("%sinto_footer_by_%d", pre, L-have), c34Wrap(0, total, append(body, c34RuntFrame(rng, int64(total), L, have)...), last), idx)
+		case 4: // runt, then 1..30 bytes of zero / noise padding, then the footer
+			pad := make([]byte, 1+rng.Intn(30))
+			if rng.Intn(2) == 0 {
+				rng.Read(pad)
+			}
+			addSeg(fmt.Sprintf("%spadding_%d_before_footer", pre, len(pad)), c34Wrap(0, total, append(append(body, c34RuntFrame(rng, int64(total), L, L)...), pad...), last), idx)
+		case 5: // a bare or partial frame header (1..12 bytes) is all that is left of the body
+			h := c34RuntFrame(rng, int64(total), L, 0)[:1+rng.Intn(12)]
+			addSeg(fmt.Sprintf("%sframe_header_bytes=%d_at_body_end", pre, len(h)), c34Wrap(0, total, append(body, h...), last), idx)
+		case 6: // two runts back to back at the end
+			L2 := 1 + rng.Intn(14)
+			fr := append(c34RuntFrame(rng, int64(total), L, L), c34RuntFrame(rng, int64(total)+1, L2, L2)...)
+			addSeg(pre+"two_runts_at_body_end", c34Wrap(0, total, append(body, fr...), last), idx)
+		default: // the runt paired with a runt index: the index object ends in a partial entry
+			full := c34Index([][2]int64{{0, 32}, {100, 1032}}, 2, 100)
+			addSeg(pre+"body_end,index_partial_entry", c34Wrap(0, total, append(body, c34RuntFrame(rng, int64(total), L, L)...), last), full[:len(full)-1-rng.Intn(11)])
+		}
+	}
+	// index files whose last entry is a runt: k whole entries + 1..11 bytes, count claiming k / k+1 / k-1;
+	// a header cut at every byte; a header alone with a count
+	nIdxRunt := r.N(120, 600)
+	for i := 0; i < nIdxRunt; i++ {
+		rng := r.Rand(800000 + i)
+		k := rng.Intn(5)
+		var es [][2]int64
+		for e := 0; e < k; e++ {
+			es = append(es, [2]int64{int64(e * 100), int64(32 + e*1000)})
+		}
+		part := 1 + i%11
+		claim := int32(k) + int32(rng.Intn(3)) - 1
+		if claim < 0 {
+			claim = 1
+		}
+		full := c34Index(append(es, [2]int64{int64(k * 100), int64(32 + k*1000)}), claim, 100)
+		addIdx(fmt.Sprintf("idx/runt_entry(%d whole+%d bytes,count=%d)", k, part, claim), full[:16+12*k+part])
+	}
+	for cut := 0; cut <= 16; cut++ {
+		addIdx(fmt.Sprintf("idx/header_cut@%d", cut), c34Index(nil, 1, 100)[:cut])
+	}
 	// index files
 	nIdx := r.N(150, 1500)
 	for i := 0; i < nIdx; i++ {
@@ -663,6 +818,7 @@ func TestVerifC34Gen(t *testing.T) {
 	}
 	r.Note("hostile_batches_acknowledged_by_broker", fmt.Sprintf("%d", accepted))
 	r.Sample(map[string]any{"segments_container": segW.N, "indexes_container": idxW.N})
+	r.Floor("segment_inputs_runt", 400)
 	r.Floor("segment_inputs_broker", 200)
 	r.Floor("segment_inputs_reaching_batch_parser", 1000)
 }
